@@ -34,6 +34,8 @@ impl Svc {
             "val" => idx(func).and_then(|i| self.vals.get(i)).map(|v| CallServiceResult::ok(v)),
             "err" => idx(func).and_then(|i| self.errs.get(i)).map(|(c, m)| CallServiceResult { ret_code: *c, result: m.clone() }),
             "pend" => None,
+            // ret_code 0 with a body that is not JSON: the interpreter turns it into a service failure itself
+            "raw" => Some(CallServiceResult { ret_code: 0, result: format!("not json <{func}") }),
             _ => Some(CallServiceResult::ok(&json!(format!("{svc}.{func}")))),
         }
     }
@@ -624,6 +626,69 @@ fn run_case(ctx: &mut Ctx, rep: &mut Report, case: &Case, peers: &[Peer], known_
     if let (Some(d), Some(air)) = (&unswallowed, &case.unswallowed) { correspond(ctx, rep, d, air, &case.svc); }
 }
 
+/// Replay faithfulness: the failure is caught where it is REPLAYED from data, not where it happened — the handler sits on
+/// another peer, or the failing peer runs again on its own data.  The error object the handler receives must carry the code
+/// and message the uncaught failure reported in the run that received the service's answer.
+fn replay_faithfulness(ctx: &mut Ctx, rep: &mut Report, peers: &[Peer]) {
+    let (me, other) = (peers[0].id.clone(), peers[1].id.clone());
+    let mut svc = Svc::default();
+    let e0 = svc.err(7, "boom");
+    let e1 = svc.err(i32::MAX, "max");
+    let e2 = svc.err(-1, "{\"not\":\"a string\"}");
+    let failing: Vec<(String, String)> = vec![
+        ("service_error".into(), format!(r#"(call "{me}" ("err" "{e0}") [] x)"#)),
+        ("service_error_max_code".into(), format!(r#"(call "{me}" ("err" "{e1}") [])"#)),
+        ("service_error_negative_code".into(), format!(r#"(call "{me}" ("err" "{e2}") [] $s)"#)),
+        ("result_not_json".into(), format!(r#"(call "{me}" ("raw" "r0") [] x)"#)),
+        ("result_not_json_stream".into(), format!(r#"(call "{me}" ("raw" "r1") [] $s)"#)),
+        ("result_not_json_unused".into(), format!(r#"(call "{me}" ("raw" "r2") [])"#)),
+    ];
+    for (name, f) in &failing {
+        for (frame_name, wrap) in [("top", "{}"), ("seq", "(seq (null) {})"), ("new", "(new y {})"), ("par_left", "(par {} (null))")] {
+            let hole = |x: &str| wrap.replace("{}", x);
+            let uncaught_air = hole(f);
+            let remote_air = hole(&format!(r#"(xor {f} (call "{other}" ("report" "err") [:error: %last_error%]))"#));
+            let uncaught = drive(&uncaught_air, peers, &svc);
+            correspond(ctx, rep, &uncaught, &uncaught_air, &svc);
+            // the run that received the answer reports the failure; a par swallows it (then the reference is the plain instruction)
+            let reference = if is_catchable(uncaught.code) { (uncaught.code, uncaught.msg.clone()) } else { let d = drive(f, peers, &svc); (d.code, d.msg) };
+            rep.case(&format!("replay|{name}|{frame_name}"), true, || json!({"replay_faithfulness": name, "frame": frame_name, "uncaught": [reference.0, reference.1.clone()]}));
+            rep.stat(&format!("replay_kind:{name}"));
+            if !is_catchable(reference.0) { rep.oracle_fail(json!({"why": format!("harness: the failing instruction of the replay scenario {name} did not fail catchably ({} {:?})", reference.0, reference.1), "input": {"air": uncaught_air}})); continue; }
+            // handler on another peer: `me` runs until nothing is left to answer, its data travels to `other`
+            let first = drive(&remote_air, peers, &svc);
+            correspond(ctx, rep, &first, &remote_air, &svc);
+            let data = first.net.peers[0].prev.clone();
+            let mut net = Net::new(&remote_air, peers, "c18");
+            net.run_peer(1, &data, CallResults::new(), "deliver".into());
+            let st = net.log.last().unwrap();
+            let reqs = decode_requests(&st.outcome.call_requests).unwrap_or_default();
+            let reports: Vec<Vec<Value>> = { let mut ids: Vec<&u32> = reqs.keys().collect(); ids.sort(); ids.into_iter().filter(|i| reqs[*i].service_id == "report").map(|i| decode_args(&reqs[i])).collect() };
+            let input = || json!({"air": remote_air, "services": svc.to_json(), "peers": ["a", "b"], "scenario": format!("replay faithfulness: {name} in {frame_name}, handler on the other peer"), "prev_hex": "", "cur_hex": hex(&data), "results": {}});
+            if st.outcome.ret_code != 0 { rep.oracle_fail(json!({"why": format!("the peer with the handler returned {} {:?} on the data of the failing peer", st.outcome.ret_code, st.outcome.error_message), "input": input()})); continue; }
+            if reports.len() != 1 { rep.oracle_fail(json!({"why": format!("the failure was replayed from data on the handler's peer: expected one execution of the right branch there, observed {}", reports.len()), "input": input()})); continue; }
+            let e = &reports[0][0];
+            if e["error_code"].as_i64() != Some(reference.0) || e["message"].as_str() != Some(reference.1.as_str()) {
+                rep.oracle_fail(json!({"why": format!("the handler on another peer received :error: = code {} message {:?}, the uncaught failure reported {} {:?}", e["error_code"], e["message"].as_str().unwrap_or("?"), reference.0, reference.1), "input": input()}));
+                continue;
+            }
+            if reports[0].get(1).map(|l| l["error_code"].as_i64() != Some(reference.0) || l["message"].as_str() != Some(reference.1.as_str())).unwrap_or(true) {
+                rep.oracle_fail(json!({"why": format!("the handler on another peer received %last_error% = {}, the uncaught failure reported {} {:?}", reports[0].get(1).cloned().unwrap_or(Value::Null), reference.0, reference.1), "input": input()}));
+                continue;
+            }
+            // the failing peer runs again on its own data (nothing new): the uncaught variant reports the same failure again
+            let mut again = Net::new(&uncaught_air, peers, "c18");
+            again.peers[0].prev = uncaught.net.peers[0].prev.clone();
+            again.run_peer(0, &[], CallResults::new(), "rerun".into());
+            let st2 = again.log.last().unwrap();
+            if is_catchable(uncaught.code) && (st2.outcome.ret_code != uncaught.code || st2.outcome.error_message != uncaught.msg) {
+                rep.oracle_fail(json!({"why": format!("re-running the failing peer on its own data reports {} {:?}, the first report was {} {:?}", st2.outcome.ret_code, st2.outcome.error_message, uncaught.code, uncaught.msg),
+                    "input": {"air": uncaught_air, "services": svc.to_json(), "prev_hex": hex(&again.peers[0].prev), "cur_hex": "", "results": {}}}));
+            }
+        }
+    }
+}
+
 pub const FINDING_STALE: &str = "error-stale-after-par-swallowed-a-failure";
 
 /// fixed scenarios: the minimal forms of everything the property speaks about (run in every tier)
@@ -686,6 +751,7 @@ pub fn run(ctx: &mut Ctx, rep: &mut Report) {
     }
     let mut known_hits: Vec<Value> = vec![];
     for case in fixed_cases(&me, &other) { rep.stat("fixed_scenarios"); run_case(ctx, rep, &case, &peers, &mut known_hits); }
+    replay_faithfulness(ctx, rep, &peers);
     let mut rng = Rng::new(ctx.seed ^ 0xC18);
     let n = if ctx.thorough { 150000 } else { 6000 };
     for i in 0..n {
